@@ -546,11 +546,26 @@ def trio_digit_decoding(ctx):
         # second form: one pass per trio with a running digit weight 1, 4, 16, ...:  child gets (value // weight) % 4 for every value
         ok = None
         wcfg = ctx.cfg(wr)
+
+        def over_vec_of(dg):
+            comp = dg
+            while comp is not None and not isinstance(comp, (ast.ListComp, ast.GeneratorExp, ast.For)):
+                comp = getattr(comp, "parent", None)
+            return isinstance(comp, (ast.ListComp, ast.GeneratorExp)) and len(comp.generators) == 1 and u(comp.generators[0].iter) == "transmission_vector" and u(comp.generators[0].target) == u(dg.left.left) and u(comp.elt) == u(dg) and not comp.generators[0].ifs
+
+        def to_child_of(dg, trio_target):
+            st_ = util.stmt_of(dg)
+            return isinstance(st_, ast.Expr) and isinstance(st_.value, ast.Call) and isinstance(st_.value.func, ast.Attribute) and st_.value.func.attr == "extend" and ("%s.child" % u(trio_target)) in u(st_.value.func.value)
         for n in walk_function(wr.node):
-            if not (isinstance(n, ast.For) and u(n.iter) == "trios"):
+            if not (isinstance(n, ast.For) and u(n.iter) in ("trios", "enumerate(trios)")):
                 continue
-            digs = [x for x in ast.walk(n) if isinstance(x, ast.BinOp) and isinstance(x.op, ast.Mod) and u(x.right) == "4" and isinstance(x.left, ast.BinOp) and isinstance(x.left.op, ast.FloorDiv) and isinstance(x.left.right, ast.Name)]
+            digs = [x for x in ast.walk(n) if isinstance(x, ast.BinOp) and isinstance(x.op, ast.Mod) and u(x.right) == "4" and isinstance(x.left, ast.BinOp) and isinstance(x.left.op, ast.FloorDiv) and isinstance(x.left.right, (ast.Name, ast.BinOp, ast.Call))]
             if len(digs) != 1:
+                continue
+            if not isinstance(digs[0].left.right, ast.Name):
+                # the weight written in place: (value // 4 ** index) % 4 with the index of the trio
+                if u(n.iter) == "enumerate(trios)" and isinstance(n.target, ast.Tuple) and len(n.target.elts) == 2 and u(digs[0].left.right) in ("4 ** %s" % u(n.target.elts[0]), "pow(4, %s)" % u(n.target.elts[0])):
+                    ok = bool(over_vec_of(digs[0]) and to_child_of(digs[0], n.target.elts[1])) and not util.lexical_loop_exits(n) and not any(isinstance(x, ast.Continue) for x in ast.walk(n))
                 continue
             wname = digs[0].left.right.id
             inits = [v_ for s_, v_ in util.assignments_to(wr.node, wname) if isinstance(v_, ast.AST)]
@@ -563,6 +578,16 @@ def trio_digit_decoding(ctx):
                 comp = getattr(comp, "parent", None)
             over_vec = isinstance(comp, (ast.ListComp, ast.GeneratorExp)) and len(comp.generators) == 1 and u(comp.generators[0].iter) == "transmission_vector" and u(comp.generators[0].target) == u(digs[0].left.left) and u(comp.elt) == u(digs[0]) and not comp.generators[0].ifs
             to_child = isinstance(st_, ast.Expr) and isinstance(st_.value, ast.Call) and isinstance(st_.value.func, ast.Attribute) and st_.value.func.attr == "extend" and ("%s.child" % u(n.target)) in u(st_.value.func.value)
+            trio_t = n.target.elts[1] if u(n.iter) == "enumerate(trios)" and isinstance(n.target, ast.Tuple) and len(n.target.elts) == 2 else n.target
+            if u(n.iter) == "enumerate(trios)" and isinstance(n.target, ast.Tuple):
+                # third form: the weight is 4 ** (index of the trio)
+                ix = u(n.target.elts[0])
+                pw = len(inits) == 1 and u(inits[0]) in ("4 ** %s" % ix, "pow(4, %s)" % ix) and not mults and any(x is util.stmt_of(inits[0]) for x in n.body)
+                if pw and over_vec_of(digs[0]) and to_child_of(digs[0], trio_t):
+                    ok = not util.lexical_loop_exits(n) and not any(isinstance(x, ast.Continue) for x in ast.walk(n))
+                elif pw:
+                    ok = False
+                continue
             form = len(inits) == 1 and u(inits[0]) == "1" and len(mults) == 1 and isinstance(mults[0].op, ast.Mult) and u(mults[0].value) == "4" and len(stores_w) == 2 and mults[0] in n.body
             if form and over_vec and to_child:
                 # weight is multiplied after it was used, once per trio, and the loop has no continue/break that could skip it
